@@ -5747,6 +5747,14 @@ class PyCdlib:
         if mbr_id is not None and (mbr_id < 0 or mbr_id > 0xffffffff):
             raise pycdlibexception.PyCdlibInvalidInput('MBR ID must fit in 32 bits')
 
+        # The EFI (and Mac) partitions describe the first (and second) EFI
+        # boot image of the El Torito Boot Catalog, which must be there.
+        num_efi = sum(len(sec.section_entries) for sec in self.eltorito_boot_catalog.sections if sec.platform_id == 0xef)
+        if self.eltorito_boot_catalog.validation_entry.platform_id == 0xef:
+            num_efi += 1
+        if (efi and num_efi < 1) or (mac and num_efi < 2):
+            raise pycdlibexception.PyCdlibInvalidInput('EFI (Mac) support needs one (two) EFI boot images in the El Torito Boot Catalog')
+
         # Check that the eltorito boot file contains the appropriate
         # signature (offset 0x40, '\xFB\xC0\x78\x70').
         with inode.InodeOpenData(self.eltorito_boot_catalog.initial_entry.inode, self.logical_block_size) as (data_fp, data_len_unused):
